@@ -189,6 +189,51 @@ Definition rows_okb (cols : list str) (h : str) (cands : list pair) (cap' : Z) (
        && forallb (fun r => negb (str_eqb (fst (rp r)) (snd (rp r))) || Nat.even (rcount r rows)) rows
        && forallb (fun r => Nat.leb (ucount (rp r) rps) (2 * ucount (rp r) cands)) rows.
 
+(* ---------- the same checks on column positions instead of names (what the harness evaluates: comparing small
+   numbers is much cheaper than comparing strings; proved equal to the name-level checks in CombosProofs.v) ---------- *)
+Fixpoint sidx (cols : list str) (x : str) : N :=
+  match cols with
+  | [] => 0%N
+  | c :: t => if str_eqb x c then 0%N else N.succ (sidx t x)
+  end.
+
+Definition ipair := (N * N)%type.
+Definition irow := (N * N * N)%type.
+Definition ipair_eqb (p q : ipair) : bool := N.eqb (fst p) (fst q) && N.eqb (snd p) (snd q).
+Definition iupair_eqb (p q : ipair) : bool := ipair_eqb p q || (N.eqb (fst p) (snd q) && N.eqb (snd p) (fst q)).
+Definition iumemb (p : ipair) (l : list ipair) : bool := existsb (iupair_eqb p) l.
+Definition iucount (p : ipair) (l : list ipair) : nat := length (filter (iupair_eqb p) l).
+Definition irow_eqb (r r' : irow) : bool := ipair_eqb (fst r) (fst r') && N.eqb (snd r) (snd r').
+Definition ircount (r : irow) (l : list irow) : nat := length (filter (irow_eqb r) l).
+Definition iswap3 (r : irow) : irow := (snd (fst r), fst (fst r), snd r).
+Definition ixp (cols : list str) (p : pair) : ipair := (sidx cols (fst p), sidx cols (snd p)).
+Definition ixr (cols : list str) (r : row) : irow := (ixp cols (rp r), snd r).
+
+Definition closed_pairsb (cols : list str) (l : list pair) : bool :=
+  forallb (fun p => memb (fst p) cols && memb (snd p) cols) l.
+
+Definition cands_okb_fast (cols : list str) (h tro label : str) (cands : list pair) : bool :=
+  let icands := map (ixp cols) cands in
+  closed_pairsb cols cands
+  && forallb (spec_pairb cols h tro label) cands
+  && forallb (fun p => negb (spec_pairb cols h tro label p) || iumemb (ixp cols p) icands) (all_pairs cols).
+
+Definition rows_okb_fast (cols : list str) (h : str) (cands : list pair) (cap' : Z) (rows : list row) : bool :=
+  let n := slice_len (length cands) cap' in
+  let irows := map (ixr cols) rows in
+  let irps := map fst irows in
+  let icands := map (ixp cols) cands in
+  closedb cols rows && closed_pairsb cols cands
+  && if is_const h then
+       Nat.eqb (length rows) n
+       && forallb (fun r => N.eqb (snd r) 0) rows
+       && forallb (fun r => Nat.leb (iucount (fst r) irps) (iucount (fst r) icands)) irows
+     else
+       Nat.eqb (length rows) (2 * n)
+       && forallb (fun r => Nat.eqb (ircount r irows) (ircount (iswap3 r) irows)) irows
+       && forallb (fun r => negb (N.eqb (fst (fst r)) (snd (fst r))) || Nat.even (ircount r irows)) irows
+       && forallb (fun r => Nat.leb (iucount (fst r) irps) (2 * iucount (fst r) icands)) irows.
+
 Fixpoint nodup_strb (l : list str) : bool :=
   match l with [] => true | h :: t => negb (memb h t) && nodup_strb t end.
 
@@ -219,9 +264,9 @@ Definition C06_model (c : C06_case) (scores : list (list score)) : C06_obs :=
              (combine (select_run [] cands cap' (c_batches c)) scores)).
 
 Definition C06_check (c : C06_case) (o : C06_obs) : bool :=
-  cands_okb (c_cols c) (c_heur c) (c_tro c) (c_label c) (o_cands o)
+  cands_okb_fast (c_cols c) (c_heur c) (c_tro c) (c_label c) (o_cands o)
   && Z.eqb (o_cap o) (eff_cap (c_heur c) (c_cap c))
-  && forallb (rows_okb (c_cols c) (c_heur c) (o_cands o) (o_cap o)) (o_rows o).
+  && forallb (rows_okb_fast (c_cols c) (c_heur c) (o_cands o) (o_cap o)) (o_rows o).
 
 (* list-level comparison with the transcription (informational when the set-level checker accepts) *)
 Fixpoint pairs_eqb (l l' : list pair) : bool :=
@@ -231,6 +276,35 @@ Fixpoint pairs_eqb (l l' : list pair) : bool :=
   | _, _ => false
   end.
 
-(* multiset of evaluated unordered pairs read off the rows (Python side uses the same reading) *)
-Definition same_ucounts (a b : list pair) : bool :=
-  Nat.eqb (length a) (length b) && forallb (fun p => Nat.eqb (ucount p a) (ucount p b)) a.
+(* informational: the same multiset of unordered pairs (on column positions) *)
+Definition same_ucounts (cols : list str) (a b : list pair) : bool :=
+  let ia := map (ixp cols) a in let ib := map (ixp cols) b in
+  Nat.eqb (length a) (length b) && forallb (fun p => Nat.eqb (iucount p ia) (iucount p ib)) ia.
+
+(* ---------- what the harness evaluates per case (names and scores arrive as indices into per-case tables).
+   Result: (verdict of C06_check, its components when it rejects, list-level equality with the transcription,
+   per-batch agreement of the recorded selection with the stable-sort transcription (only when asked: the
+   imported sampler model is slow on long lists), sizes) ---------- *)
+Definition C06_eval (names : list str) (c : C06_case) (cands_ix : list (nat * nat))
+           (rows_ix : list (list (nat * nat * nat))) (samp_ix : list (list (nat * nat)))
+           (caps : list Z) (cap_obs : Z) (with_sel : bool) :=
+  let nm := fun i : nat => nth i names [] in
+  let ocands := map (fun ij : nat * nat => (nm (fst ij), nm (snd ij))) cands_ix in
+  let orows := map (map (fun r : nat * nat * nat => (nm (fst (fst r)), nm (snd (fst r)), N.of_nat (snd r)))) rows_ix in
+  let cap' := eff_cap (c_heur c) (c_cap c) in
+  let caps_ok := forallb (fun z => Z.eqb z cap') caps in
+  let chk := C06_check c (mkObs ocands cap_obs orows) && caps_ok in
+  (chk,
+   if chk then None
+   else Some (cands_okb_fast (c_cols c) (c_heur c) (c_tro c) (c_label c) ocands, caps_ok,
+              map (rows_okb_fast (c_cols c) (c_heur c) ocands cap') orows),
+   pairs_eqb (C06_cands c) ocands,
+   if with_sel then
+     let osamp := map (map (fun ij : nat * nat => (nm (fst ij), nm (snd ij)))) samp_ix in
+     map (fun ab => same_ucounts (c_cols c) (fst ab) (snd ab)) (combine (select_run [] (C06_cands c) cap' (c_batches c)) osamp)
+   else [],
+   (length (C06_cands c), slice_len (length ocands) cap', nodup_strb (c_cols c) && memb (c_label c) (c_cols c))).
+
+Definition C06_eval_light (c : C06_case) :=
+  let cap' := eff_cap (c_heur c) (c_cap c) in
+  (Z.of_nat (length (C06_cands c)), cap', Z.of_nat (slice_len (length (C06_cands c)) cap')).
